@@ -3,9 +3,14 @@ package h
 import (
 	"fmt"
 	"math"
+	"net/http"
+	"net/http/httptest"
+	"strconv"
+	"strings"
 	"sync"
 
 	"github.com/netflix/rend/metrics"
+	"github.com/netflix/rend/verifshim/vyield"
 
 	"verif/rt"
 	"verif/sched"
@@ -24,6 +29,173 @@ type metricsRace struct {
 	Incs    [][]uint64 `json:"incrementers"` // per incrementer thread: amounts (1 = IncCounter)
 	Reads   int        `json:"reads"`        // reader: number of extract/read rounds
 	Choices []int      `json:"choices"`
+}
+
+// scrapeRace: observers against TWO pollers of the real /metrics HTTP handler. Scheduling points:
+// the scrape lock and the histogram's lock (both directions), every atomic step of the observers,
+// and a yield injected between taking a period out of the histogram and sorting / reading it.
+type scrapeRace struct {
+	Obs     [][]uint64 `json:"observers"`
+	Scrapes []int      `json:"scrapes_per_poller"`
+	Choices []int      `json:"choices"`
+}
+
+var (
+	c18scrapeOnce sync.Once
+	c18scrapeHist uint32
+)
+
+type scrapeReport struct {
+	seen  bool
+	count uint64
+	kept  uint64
+	pct   map[string]uint64
+}
+
+func parseScrape(body string) scrapeReport {
+	r := scrapeReport{pct: map[string]uint64{}}
+	for _, line := range strings.Split(body, "\n") {
+		if !strings.HasPrefix(line, "hist_verif_scrape|") {
+			continue
+		}
+		sp := strings.LastIndexByte(line, ' ')
+		i := strings.Index(line, "statistic*")
+		if sp < 0 || i < 0 {
+			continue
+		}
+		stat := line[i+len("statistic*") : sp]
+		if j := strings.IndexByte(stat, '|'); j >= 0 {
+			stat = stat[:j]
+		}
+		if stat == "average" {
+			continue
+		}
+		v, err := strconv.ParseUint(line[sp+1:], 10, 64)
+		if err != nil {
+			continue
+		}
+		r.seen = true
+		switch stat {
+		case "count":
+			r.count = v
+		case "kept":
+			r.kept = v
+		default:
+			r.pct[stat] = v
+		}
+	}
+	return r
+}
+
+func scrapeOnce() scrapeReport {
+	rec := httptest.NewRecorder()
+	http.DefaultServeMux.ServeHTTP(rec, httptest.NewRequest("GET", "/metrics", nil))
+	return parseScrape(rec.Body.String())
+}
+
+func runScrapeRace(sc scrapeRace, prefix []int) *metricsRaceResult {
+	c18scrapeOnce.Do(func() { c18scrapeHist = metrics.AddHistogram("verif_scrape", false, nil) })
+	res := &metricsRaceResult{}
+	scrapeOnce() // every histogram of the process starts an empty period
+	s := sched.New(prefix)
+	res.S = s
+	hk := InstallShimHooks(s)
+	l1, l2 := metrics.VerifScrapeLocks(c18scrapeHist)
+	hk.AtomicPoints, hk.LockPoints = true, true
+	hk.LockFilter = func(m interface{}) bool { return m == l1 || m == l2 }
+	hk.AtomicThreads = map[int]bool{}
+	defer hk.Uninstall()
+	pollers := map[int]bool{}
+	vyield.Hook = func(label string) {
+		if t := s.Current(); t >= 0 && pollers[t] {
+			s.Point("yield-"+label, nil)
+		}
+	}
+	defer func() { vyield.Hook = nil }()
+	tid := 0
+	nobs := 0
+	seenVal := map[uint64]bool{}
+	for _, vals := range sc.Obs {
+		vals := vals
+		for _, v := range vals {
+			if seenVal[v] {
+				panic("scrapeRace: observed values must be distinct")
+			}
+			seenVal[v] = true
+			nobs++
+		}
+		hk.AtomicThreads[tid] = true
+		s.Go(tid, func() {
+			for _, v := range vals {
+				metrics.ObserveHist(c18scrapeHist, v)
+			}
+		})
+		tid++
+	}
+	var reports []scrapeReport
+	for _, n := range sc.Scrapes {
+		n := n
+		pollers[tid] = true
+		s.Go(tid, func() {
+			for i := 0; i < n; i++ {
+				r := scrapeOnce()
+				reports = append(reports, r)
+			}
+		})
+		tid++
+	}
+	s.Run()
+	hk.Uninstall()
+	vyield.Hook = nil
+	add := func(clause, what string) {
+		res.Findings = append(res.Findings, Finding{Sig: "C18 scrape-" + clause, What: what, Clause: clause})
+	}
+	if s.Deadlock {
+		add("deadlock", s.DeadlockInfo)
+		return res
+	}
+	reports = append(reports, scrapeOnce()) // closes the last period
+	var total uint64
+	owner := map[uint64]int{}
+	var counts []uint64
+	for pi, r := range reports {
+		counts = append(counts, r.count)
+		if !r.seen {
+			add("report-missing", fmt.Sprintf("scrape %d does not report the histogram at all", pi))
+			continue
+		}
+		total += r.count
+		if r.count == 0 {
+			continue
+		}
+		if r.kept != r.count {
+			add("kept", fmt.Sprintf("scrape %d: count %d kept %d (unsampled histogram)", pi, r.count, r.kept))
+		}
+		mn, mx := r.pct["percentile0"], r.pct["percentile100"]
+		for name, v := range r.pct {
+			if v < mn || v > mx {
+				add("percentile-range", fmt.Sprintf("scrape %d: %s = %d outside the reported [min %d, max %d]", pi, name, v, mn, mx))
+				break
+			}
+			if !seenVal[v] {
+				add("percentile-foreign", fmt.Sprintf("scrape %d: %s = %d was never observed", pi, name, v))
+				break
+			}
+			if o, ok := owner[v]; ok && o != pi {
+				add("percentile-foreign", fmt.Sprintf("%s = %d is reported by scrape %d and by scrape %d although it was observed once: one of the two periods reports an observation that is not its own", name, v, o, pi))
+				break
+			}
+			owner[v] = pi
+		}
+		if len(r.pct) != 23 {
+			add("report-incomplete", fmt.Sprintf("scrape %d reports %d percentile lines for a non-empty period", pi, len(r.pct)))
+		}
+	}
+	if total != uint64(nobs) {
+		add("count", fmt.Sprintf("the scrapes report %d observations in total, %d were made (per scrape: %v)", total, nobs, counts))
+	}
+	res.Outcome = fmt.Sprintf("counts=%v", counts)
+	return res
 }
 
 type metricsRaceResult struct {
@@ -144,6 +316,53 @@ func runMetricsRace(sc metricsRace, prefix []int) *metricsRaceResult {
 		return c
 	}())
 	return res
+}
+
+func exploreScrapeRaces(c *rt.Ctx) {
+	bound := 2
+	if c.Thorough() {
+		bound = 3
+	}
+	progs := []scrapeRace{
+		{Obs: [][]uint64{{10, 500, 20}}, Scrapes: []int{1, 1}},
+	}
+	if c.Thorough() {
+		progs = append(progs, scrapeRace{Obs: [][]uint64{{10, 20, 30, 1000}}, Scrapes: []int{1, 2}}, scrapeRace{Obs: [][]uint64{{7, 900}, {15, 800}}, Scrapes: []int{2, 2}})
+	}
+	for pi, sc := range progs {
+		if !c.Mine(2000 + pi) {
+			continue
+		}
+		ex := &sched.Explorer{Bound: bound, MaxExecs: 100000, Expired: c.Expired}
+		outs := map[string]bool{}
+		violated := false
+		ex.Explore(func(prefix []int) *sched.Sched {
+			var r *metricsRaceResult
+			sched.Bubble(c.T, func() { r = runScrapeRace(sc, prefix) })
+			c.Eval(1)
+			c.Trace(1)
+			c.Trans(int64(len(r.S.Trace)))
+			outs[r.Outcome] = true
+			for _, f := range r.Findings {
+				violated = true
+				scc := sc
+				scc.Choices = r.S.Choices()
+				c.Violation(f.Sig, f.What+"\nschedule: "+r.S.Describe(), map[string]interface{}{"scrape_race": scc})
+			}
+			return r.S
+		}, func(s *sched.Sched) bool { return !violated })
+		if ex.Truncated {
+			c.Cap(fmt.Sprintf("schedule cap reached for scrape race program %d (preemption bound %d)", pi, bound))
+		}
+		c.State(int64(len(outs)))
+		key := fmt.Sprintf("scrape|%d", pi)
+		c.Distinct(key)
+		if len(outs) > 1 {
+			c.Nontrivial(key)
+		}
+		c.Sample(map[string]interface{}{"program": sc, "schedules": ex.Execs, "preemption_bound": bound, "distinct_outcomes": len(outs)})
+		c.Add("n_scrape_race_schedules", int64(ex.Execs))
+	}
 }
 
 func exploreMetricsRaces(c *rt.Ctx) {
